@@ -602,7 +602,9 @@ class DigestHistories(_C48):
                         for user in range(len(USERS)):
                             for uri in range(len(URIS)):
                                 for form in ("auth", "legacy"):
-                                    for af in (algo, None, algo.upper(), b"md5-sess"):
+                                    # md5-sess in other spellings too: the legacy form has no cnonce, so a spelling that
+                                    # slips past decode()'s checks makes checkPassword raise (seeded change C48-2)
+                                    for af in (algo, None, algo.upper(), b"md5-sess", b"MD5-sess", b"Md5-Sess"):
                                         out.append((via, algo, a, a, BASES[0], el, (0, 0), style, user, uri, form, af, 0, None))
                 # (d) passwords and methods
                 for el in (7, LIFETIME + 8):
